@@ -401,6 +401,7 @@ type Case struct {
 	Siblings int     `json:"siblings"`
 	SameType int     `json:"siblings_same_type"`
 	Strays   int     `json:"strays"`
+	Reuse    bool    `json:"reuse"` // load once with other file contents on the same store value first
 }
 
 func validType(t string) bool { return t == "ca" || t == "signingAuthority" || t == "tsa" }
@@ -561,12 +562,15 @@ func isCertErr(err error) bool {
 }
 
 func call(base, typ, name string) (certs []*x509.Certificate, err error, panicked any) {
+	return callOn(truststore.NewX509TrustStore(dir.NewSysFS(base)), typ, name)
+}
+
+func callOn(ts truststore.X509TrustStore, typ, name string) (certs []*x509.Certificate, err error, panicked any) {
 	defer func() {
 		if r := recover(); r != nil {
 			panicked = r
 		}
 	}()
-	ts := truststore.NewX509TrustStore(dir.NewSysFS(base))
 	certs, err = ts.GetCertificates(context.Background(), truststore.Type(typ), name)
 	return
 }
@@ -593,10 +597,41 @@ func check(c *Case, v verdict) (key, msg string, succeeded bool) {
 		return "harness:mkdtemp", err.Error(), false
 	}
 	defer os.RemoveAll(base)
-	if err := materialize(base, c.Nodes); err != nil {
-		return "harness:materialize", err.Error(), false
+	var certs []*x509.Certificate
+	var pan any
+	if c.Reuse {
+		// history on ONE store value: first every file holds a (valid) decoy root, the store is
+		// loaded, then the files are overwritten in place with the case's real content (same
+		// names, same inodes, directory untouched) and the store is loaded again; the judged
+		// result must only depend on what the files hold now
+		prior := make([]*node, len(c.Nodes))
+		decoy := pemOf(p.decoys[:1])
+		for i, n := range c.Nodes {
+			cp := *n
+			if n.Kind == "file" {
+				cp.data = decoy
+			}
+			prior[i] = &cp
+		}
+		if err := materialize(base, prior); err != nil {
+			return "harness:materialize", err.Error(), false
+		}
+		ts := truststore.NewX509TrustStore(dir.NewSysFS(base))
+		callOn(ts, c.Type, c.Name)
+		for _, n := range c.Nodes {
+			if n.Kind == "file" {
+				if err := os.WriteFile(base+"/"+n.Path, n.data, 0o644); err != nil {
+					return "harness:rewrite", err.Error(), false
+				}
+			}
+		}
+		certs, err, pan = callOn(ts, c.Type, c.Name)
+	} else {
+		if err := materialize(base, c.Nodes); err != nil {
+			return "harness:materialize", err.Error(), false
+		}
+		certs, err, pan = call(base, c.Type, c.Name)
 	}
-	certs, err, pan := call(base, c.Type, c.Name)
 	if pan != nil {
 		return "C13:panic", fmt.Sprintf("GetCertificates panicked: %v", pan), false
 	}
@@ -692,7 +727,7 @@ func (c *Case) view() any {
 }
 
 func (c *Case) fingerprint() uint64 {
-	parts := []any{c.Type, c.Name}
+	parts := []any{c.Type, c.Name, c.Reuse}
 	for _, n := range c.Nodes {
 		parts = append(parts, n.Path, n.Kind, n.What, n.Var, strings.Join(n.Certs, ","), n.Target)
 	}
@@ -713,6 +748,9 @@ func classesOf(c *Case, v verdict, succeeded bool) ([]string, bool) {
 		cl[0] = "ok"
 	}
 	cl = append(cl, "model="+v.Expect)
+	if c.Reuse {
+		cl = append(cl, "reused-store-value")
+	}
 	if v.Reason != "" {
 		cl = append(cl, "reason="+v.Reason)
 	}
